@@ -417,7 +417,9 @@ def check(ctx):
     removal_shape(ctx)
     confirmed_never_removed(ctx)
     infeasibility_monotone(ctx)
-    guards.check_accumulators_threaded(ctx, [f for f in ctx.prog.all_functions() if f.module.name.startswith('adsg_core.graph.')])
+    from . import c02 as _c02
+    guards.check_accumulators_threaded(ctx, [f for f in ctx.prog.all_functions() if f.module.name.startswith('adsg_core.graph.')],
+                                       subsumed=_c02.closure_subsumes(ctx, _c02.start_closure(ctx)))
     # graph algorithms memoise in caller-provided cache dicts: keys must cover what the value depends on
     persist.check_memo_functions(ctx, [f for f in ctx.prog.all_functions() if f.module.name.startswith('adsg_core.graph.')])
     edges.check_walks(ctx, categories={'incompat-scan', 'derivation', 'default'},
